@@ -543,6 +543,69 @@ theorem crop1d_centred (x y : List Int) (n2 i : Nat) (h2 : 1 ≤ n2) (h : n2 ≤
     unfold fftshiftSrc; exact Nat.mod_lt _ (by omega)
   rw [List.getD_eq_getElem?_getD, List.getElem?_eq_getElem hlt, Option.getD_some]
 
+/-! ### two dimensions: the outer-product masks pair positions axis by axis -/
+
+lemma flatTrue_product (nx ny : Nat) (mx my : Nat → Bool) :
+    flatTrue nx ny mx my = (trueIdx nx mx).flatMap fun i => (trueIdx ny my).map fun j => i * ny + j := by
+  unfold flatTrue trueIdx
+  rcases Nat.eq_zero_or_pos ny with h0 | hpos
+  · subst h0; simp
+  · induction nx with
+    | zero => simp
+    | succ n ih =>
+      rw [Nat.succ_mul, List.range_add, List.filter_append, ih, List.range_succ, List.filter_append, List.flatMap_append]
+      congr 1
+      rw [List.filter_map]
+      have hcomp : ((fun k => mx (k / ny) && my (k % ny)) ∘ fun x => n * ny + x) = fun j => mx ((n * ny + j) / ny) && my ((n * ny + j) % ny) := rfl
+      rw [hcomp]
+      by_cases hm : mx n = true
+      · have e1 : List.filter mx [n] = [n] := by simp [hm]
+        rw [e1]
+        simp only [List.flatMap_cons, List.flatMap_nil, List.append_nil]
+        congr 1
+        apply List.filter_congr
+        intro j hj
+        have hj' := List.mem_range.1 hj
+        have d : (n * ny + j) / ny = n := by
+          rw [Nat.add_comm, Nat.add_mul_div_right _ _ hpos, Nat.div_eq_of_lt hj']; simp
+        have r : (n * ny + j) % ny = j := by
+          rw [Nat.add_comm, Nat.add_mul_mod_self_right, Nat.mod_eq_of_lt hj']
+        rw [d, r, hm]; simp
+      · have e1 : List.filter mx [n] = [] := by simp [hm]
+        rw [e1]
+        simp only [List.flatMap_nil, List.map_eq_nil_iff]
+        apply List.filter_eq_nil_iff.2
+        intro j hj
+        have hj' := List.mem_range.1 hj
+        have d : (n * ny + j) / ny = n := by
+          rw [Nat.add_comm, Nat.add_mul_div_right _ _ hpos, Nat.div_eq_of_lt hj']; simp
+        rw [d]
+        simp [hm]
+
+lemma zip_flatMap_map {α β γ δ : Type} (I1 : List α) (I2 : List β) (J1 : List γ) (J2 : List δ)
+    (hJ : J1.length = J2.length) {ε ζ : Type} (f : α → γ → ε) (g : β → δ → ζ) :
+    (I1.flatMap fun i => J1.map (f i)).zip (I2.flatMap fun i => J2.map (g i))
+      = (I1.zip I2).flatMap fun p => (J1.zip J2).map fun q => (f p.1 q.1, g p.2 q.2) := by
+  induction I1 generalizing I2 with
+  | nil => simp
+  | cons a as ih =>
+    cases I2 with
+    | nil => simp
+    | cons b bs =>
+      simp only [List.flatMap_cons, List.zip_cons_cons]
+      rw [List.zip_append (by simp [hJ]), ih bs, List.zip_map]
+      congr 1
+
+/-- **The 2-D crop pairs positions axis by axis**: the k-th selected output pixel `(pᵢ, pⱼ)` receives the input pixel
+`(qᵢ, qⱼ)` where `(pᵢ, qᵢ)` and `(pⱼ, qⱼ)` are pairs of the two 1-D crops — so every 1-D statement above (equal signed
+frequency, centred crop, centred pad) holds along both axes of the diffraction pattern. -/
+theorem pairs2d_product (nx ny mx my : Nat) (hy1 : 1 ≤ ny) (hy2 : 1 ≤ my) :
+    pairs2d nx ny mx my = (pairs1d nx mx).flatMap fun p => (pairs1d ny my).map fun q => (p.1 * my + q.1, p.2 * ny + q.2) := by
+  unfold pairs2d pairs1d
+  rw [flatTrue_product, flatTrue_product]
+  have hJ := mask_counts ny my hy1 hy2
+  exact zip_flatMap_map _ _ _ _ (by rw [hJ.1, hJ.2]) (fun i j => i * my + j) (fun i j => i * ny + j)
+
 /-! ### non-vacuity: concrete instances -/
 example : (masks1d 7 4).1 = headTail 7 4 := by rw [masks1d_crop 7 4 (by omega) (by omega)]
 example : crop1d [10, 11, 12, 13, 14, 15, 16] 4 = .ok [10, 11, 15, 16] := by decide +kernel
